@@ -433,6 +433,11 @@ func (o OneOfSchema[KeyType]) findUnderlyingType(data any) (KeyType, Object, err
 // declaration.
 func (o OneOfSchema[KeyType]) validateSubtypeDiscriminatorInlineFields() error {
 	for key, typeValue := range o.TypesValue {
+		if ref, isRef := typeValue.(Ref); isRef && !ref.ObjectReady() {
+			// The reference belongs to a namespace that has not been applied yet, so its properties cannot be
+			// inspected now. ApplyNamespace runs this check again when that namespace is applied.
+			continue
+		}
 		typeValueDiscriminatorValue, hasDiscriminator := typeValue.Properties()[o.DiscriminatorFieldNameValue]
 		switch {
 		case !o.DiscriminatorInlined && hasDiscriminator:
